@@ -32,6 +32,36 @@ func probeKind(tag string) (kind string) {
 	return kindOf(doc.Nodes()[0].Nodes()[0])
 }
 
+// probeDropsValue: does a decoded `… TAG probe-value` line come back without its value?  Probed in
+// the positions a tag can take: root line with pointer, root line without, child of a family.
+func probeDropsValue(tag string) (dropped bool) {
+	defer func() {
+		if r := recover(); r != nil {
+			dropped = true
+		}
+	}()
+	for _, src := range []string{
+		"0 @F@ FAM\n0 @X@ " + tag + " probe-value\n",
+		"0 @F@ FAM\n0 " + tag + " probe-value\n",
+		"0 @F@ FAM\n1 " + tag + " probe-value\n",
+	} {
+		doc, err := gedcom.NewDocumentFromString(src)
+		if err != nil {
+			return true
+		}
+		var n gedcom.Node
+		if strings.Contains(src, "\n1 ") {
+			n = doc.Nodes()[0].Nodes()[0]
+		} else {
+			n = doc.Nodes()[1]
+		}
+		if n.Value() != "probe-value" {
+			return true
+		}
+	}
+	return false
+}
+
 func init() {
 	extractors["Tags"] = func() string {
 		var b strings.Builder
@@ -76,6 +106,15 @@ func init() {
 			fmt.Fprintf(&b, "  (%q, %v, %v, %d)%s\n", n, t.IsEvent(), t.IsOfficial(), t.SortValue(), sep)
 		}
 		b.WriteString("]\n\n")
+		// which tags lose the value written on their line when decoded (probe per registered tag and
+		// an unregistered one, as a root line and as a child of a family, with and without a pointer)
+		dropped := []string{}
+		for _, n := range append(append([]string{}, names...), "ZZUNKNOWN") {
+			if probeDropsValue(n) {
+				dropped = append(dropped, fmt.Sprintf("%q", n))
+			}
+		}
+		fmt.Fprintf(&b, "/-- tags whose node does not keep the value of its line (decode probe) -/\ndef valueDroppedTags : List String := [%s]\n\n", strings.Join(dropped, ", "))
 		b.WriteString("def kindOfTag (tag : String) : String :=\n  match kindTable.find? (·.1 == tag) with\n  | some e => e.2\n  | none => unknownKind\n\n")
 		b.WriteString("end Gedcom.Generated\n")
 		return b.String()
